@@ -522,8 +522,11 @@ drain:
 		switch m.k {
 		case KUnlock:
 			l := r.lockOf(m.obj)
-			if l.owner != t {
-				r.Fail("unlock of a mutex not held by the caller", fmt.Sprintf("task %s unlocked %s which the model says is held by %v", t.Name, r.objName(r.objID(m.obj)), ownerName(l.owner)))
+			// Go allows a mutex to be unlocked by another goroutine than the one
+			// that locked it (hand-off); only unlocking a free mutex is an error
+			// (the real mutex beneath would end the process)
+			if l.owner == nil {
+				r.Fail("unlock of a mutex that is not locked", fmt.Sprintf("task %s unlocked %s which nobody holds", t.Name, r.objName(r.objID(m.obj))))
 			}
 			l.owner = nil
 		case KRUnlock:
